@@ -6,6 +6,8 @@ CONSTANTS
   CpropSet = {"plain", "nl", "na"}
   CmtSet = {"one", "multi", "na"}
   RuleSet = {"asc", "na"}
+  AtAttr = {"-"}
+  Extra = {}
 INVARIANT DesignAccepted
 INVARIANT Sensitive
 INVARIANT EmitVec
